@@ -149,6 +149,9 @@ fn run_v<V: Fv>(ctx: &Ctx, rep: &mut Report) {
             // decode as the intended type, and also as the two other types of this variant
             // and as the same type of the other variant
             check_one::<V>(ty, &class, &b, rep);
+            // and the SAME string again at once: a decoder that remembers its last input (and
+            // forgets to forget it when the decode fails) answers differently the second time
+            check_one::<V>(ty, &format!("{}-retried", class), &b, rep);
             for t in [Ty::Pk, Ty::Sk, Ty::Sig] {
                 if t != ty && (class == "valid" || class.starts_with("header") || class.starts_with("len")) {
                     check_one::<V>(t, &class, &b, rep);
